@@ -34,7 +34,7 @@ def _group(args):
     if ctype == "multipart":
         ref = mp.ref_of(body, bnd)
         formref = mp.run_form(body, bnd, n + 1)
-        ct = "multipart/form-data; boundary=" + bnd.decode()
+        ct = mp.ctype_for(bnd)
     else:
         ref = {"err": "", "parts": []}
         r = mp.run_request(body, "application/x-www-form-urlencoded")
@@ -81,7 +81,7 @@ def _model_case(v):
     default there, so only outcome-level agreement is compared, as drift)."""
     wire, bnd, c = bytes(v["wire"]), bytes(v["bnd"]), v["c"]
     un = lambda x: None if x < 0 else x
-    ct = "multipart/form-data; boundary=" + bnd.decode()
+    ct = mp.ctype_for(bnd)
     cfg = {"op": "cfg", "bnd": list(bnd), "wire": list(wire), "ref": mp.ref_of(wire, bnd),
            "formref": mp.run_form(wire, bnd, len(wire) + 1), "modelhdr": False, "ctype": "multipart"}
     r = mp.run_request(wire, ct, mcl=un(c["mcl"]), maxmem=un(c["maxmem"]), maxparts=un(c["maxparts"]), has_cl=c["hasCL"], term=c["term"])
@@ -159,7 +159,7 @@ def replay(ctx: Ctx, data):
     un = lambda v: None if v is None or v < 0 else v
     if case["ctype"] == "multipart":
         ref, formref = mp.ref_of(w, b), mp.run_form(w, b, len(w) + 1)
-        ct = "multipart/form-data; boundary=" + b.decode()
+        ct = mp.ctype_for(b)
     else:
         ref, formref = {"err": "", "parts": []}, mp.run_request(w, "application/x-www-form-urlencoded")["res"]
         ct = "application/x-www-form-urlencoded"
